@@ -286,6 +286,9 @@ func (lam *Lambda) Compile(s *Scope, extraVars ...string) {
 	expand:
 		switch tf := f.(type) {
 		case Symbol:
+			if 0 < len(tf) && tf[0] == ':' {
+				break // a keyword evaluates to itself
+			}
 			if s.has(string(tf)) || lam.Doc.getArg(string(tf)) != nil {
 				break
 			}
